@@ -35,7 +35,7 @@ class Check:
         self.cov = {'functions_encoded': [], 'bounds': {}, 'domains': [], 'stubs': [], 'lemmas': [],
                     'queries': {'sat': 0, 'unsat': 0, 'unknown': 0}, 'solver_s': 0.0, 'paths': 0, 'ir_instructions': 0,
                     'witnesses': {'reachability': 0, 'sensitivity': 0}, 'interp_vs_native': {'cases': 0, 'mismatches': 0},
-                    'replayed': 0, 'obligations': []}
+                    'replayed': 0, 'obligation_list': []}
         self.hashes = set()
         self.nqueries = 0
         self.known = [k for k in load_known() if k.get('property') == pid]
@@ -71,7 +71,7 @@ class Check:
             if len(self.samples) < 24:
                 self.samples.append(s)
         for o in w.get('obligations', []):
-            self.cov['obligations'].append(o)
+            self.cov['obligation_list'].append(o)
         for k, v in w.get('witnesses', {}).items():
             self.cov['witnesses'][k] = self.cov['witnesses'].get(k, 0) + v
         for f in w.get('functions', []):
@@ -92,7 +92,7 @@ class Check:
             d['seconds'] = round(seconds, 3)
         if detail:
             d['detail'] = detail
-        self.cov['obligations'].append(d)
+        self.cov['obligation_list'].append(d)
 
     # ------------------------------------------------------------ findings
     def report(self, key, what, replay):
@@ -283,3 +283,153 @@ def dagger(A, d):
 
 def frac_str(x):
     return '%d/%d' % (x.numerator, x.denominator)
+
+
+# ------------------------------------------------------------------------------------ shared symbolic helpers
+def sym_vec(prefix, n):
+    return [T.var('%s%d' % (prefix, i)) for i in range(n)]
+
+
+def s2m_map(h, d, ctx, fn='h_s2m'):
+    """execute GetGSLMatrix symbolically with all d^2 components symbolic; returns per-entry linear Polys"""
+    from irsym.harness import I, Buf
+    n = d * d
+    xs = sym_vec('x', n)
+    ps = h.run(fn, [I(d), Buf('a', xs), Buf('re', n=n), Buf('im', n=n)])
+    if not (len(ps) == 1 and ps[0].status == 'ok' and ps[0].ret == 0):
+        raise RuntimeError('S2M execution: unexpected paths %r' % (ps,))
+    p = ps[0]
+    re = [ctx.poly(v) for v in p.out('re')]
+    im = [ctx.poly(v) for v in p.out('im')]
+    for q in re + im:
+        if not (q.degree() <= 1 and () not in q.d):
+            raise RuntimeError('S2M is not linear-homogeneous')
+    xat = [ctx.atom(x) for x in xs]
+    return re, im, xat, h.last_ex.stats
+
+
+def apply_map(re, im, xat, comps, d):
+    """matrix (d x d of (Poly re, Poly im)) of the vector whose components are the Polys `comps`"""
+    idx = {a: k for k, a in enumerate(xat)}
+    M = [[None] * d for _ in range(d)]
+    for i in range(d):
+        for j in range(d):
+            pr = Poly()
+            pi = Poly()
+            for m, c in re[i * d + j].d.items():
+                pr = pr + comps[idx[m[0][0]]].scale(c)
+            for m, c in im[i * d + j].d.items():
+                pi = pi + comps[idx[m[0][0]]].scale(c)
+            M[i][j] = (pr, pi)
+    return M
+
+
+def gellmann(d):
+    """generalised Gell-Mann basis in the SQuIDS component layout (index d*i+j): list of d^2 complex matrices with
+    entries as pairs of Fractions (sqrt factors to ~1e-30).  0: identity; (i<j): symmetric at d*i+j, antisymmetric
+    (-i at (i,j), +i at (j,i)) at d*j+i; diagonal l=1..d-1 at d*l+l: sqrt(2/(l(l+1))) diag(1,..,1,-l,0,..)."""
+    from decimal import Decimal, getcontext
+    getcontext().prec = 50
+    n = d * d
+    B = [[[(Fraction(0), Fraction(0)) for _ in range(d)] for _ in range(d)] for _ in range(n)]
+    for i in range(d):
+        B[0][i][i] = (Fraction(1), Fraction(0))
+    for i in range(d):
+        for j in range(i + 1, d):
+            B[d * i + j][i][j] = (Fraction(1), Fraction(0))
+            B[d * i + j][j][i] = (Fraction(1), Fraction(0))
+            B[d * j + i][i][j] = (Fraction(0), Fraction(-1))
+            B[d * j + i][j][i] = (Fraction(0), Fraction(1))
+    for l in range(1, d):
+        c = Fraction((Decimal(2) / Decimal(l * (l + 1))).sqrt())
+        for k in range(l):
+            B[d * l + l][k][k] = (c, Fraction(0))
+        B[d * l + l][l][l] = (-l * c, Fraction(0))
+    return B
+
+
+class Decider:
+    """residual-based decision of numeric obligations inside a worker; fills the worker's `out` dict"""
+
+    def __init__(self, solver, ctx, out, tol=Fraction(1, 10 ** 13), box=1):
+        self.solver = solver
+        self.ctx = ctx
+        self.out = out
+        self.res = Residual(solver, ctx, box=box, tol=tol)
+
+    def holds(self, name, detail=None, seconds=None):
+        d = {'obligation': name, 'verdict': 'holds'}
+        if detail:
+            d['detail'] = detail
+        if seconds is not None:
+            d['seconds'] = round(seconds, 3)
+        self.out['obligations'].append(d)
+
+    def candidate(self, key, what, **kw):
+        c = {'key': key, 'what': what}
+        c.update(kw)
+        self.out['candidates'].append(c)
+
+    def decide(self, name, polys, key, cand_extra, sens_poly=None, res=None):
+        """polys: residual polynomials that must stay within tol on the box.  Returns True if it holds."""
+        res = res or self.res
+        t1 = time.time()
+        ok = True
+        r = res.relax_query(polys, '%s (linear relaxation of the normal-form residual, %d entries)' % (name, len(polys)))
+        if r == 'unsat':
+            self.holds(name, seconds=time.time() - t1, detail='max L1 norm of a residual %.3g' % float(max([p.l1() for p in polys] or [0])))
+        else:
+            found = False
+            for k, p in enumerate(polys):
+                if p.l1() <= res.tol:
+                    continue
+                rr, env = res.exact_query(p, '%s entry %d (NRA witness query)' % (name, k), timeout_ms=60000)
+                if rr == 'sat':
+                    found = True
+                    ok = False
+                    inp = {}
+                    for at, v in env.items():
+                        t = self.ctx.atom_terms[at]
+                        inp[t.aux if t.op == 'var' else 'atom:%s' % T.show(t, 2)] = frac_str(v)
+                    self.candidate(key, '%s is violated (residual entry %d)' % (name, k), input=inp, entry=k, **cand_extra)
+                    break
+                elif rr == 'unsat':
+                    continue
+                else:
+                    self.out['undecided'].append('%s entry %d: NRA witness query returned unknown' % (name, k))
+                    found = True
+                    ok = False
+                    break
+            if not found:
+                self.holds(name + ' (after per-entry NRA queries)', seconds=time.time() - t1)
+        if sens_poly is not None:
+            r2 = res.relax_query([sens_poly], None)
+            if r2 == 'sat':
+                self.out['witnesses']['sensitivity'] += 1
+            else:
+                self.out['broken'].append('%s: sensitivity witness not sat' % name)
+        return ok
+
+
+def new_out(**kw):
+    d = {'obligations': [], 'candidates': [], 'undecided': [], 'broken': [], 'witnesses': {'reachability': 0, 'sensitivity': 0}}
+    d.update(kw)
+    return d
+
+
+def generic_interp_vs_native(chk, h, cases):
+    """cases: list of (fn, args, out buffer names).  Concrete-double interpretation of the IR vs the g++ build."""
+    for fn, args, names in cases:
+        ps = h.run(fn, args, domain='C')
+        ret, o = h.native(fn, args)
+        chk.cov['interp_vs_native']['cases'] += 1
+        ok = len(ps) == 1 and ps[0].status == 'ok' and ps[0].ret == ret
+        if ok:
+            for nm in names:
+                mine = ps[0].out(nm)
+                for x, y in zip(mine, o[nm]):
+                    if x is None or not (x == y or (x != x and y != y)):
+                        ok = False
+        if not ok:
+            chk.cov['interp_vs_native']['mismatches'] += 1
+            chk.broken_q('interpreter and native build disagree on %s %r: %r vs native ret %r' % (fn, [getattr(a, 'v', None) for a in args[:3]], ps, ret))
